@@ -72,7 +72,8 @@ async def run(ctx) -> None:
     await asyncio.sleep(0.3)
     n_rx = 0
     n_snap = 0
-    delivered: list = []
+    delivered: list = []  # (dtm as stamped by the library, frame) of every message the gateway handled
+    gwy.add_msg_handler(lambda m: delivered.append((m.dtm, str(m._pkt))))
     eaves = bool(k("eavesdrop"))
     for name, n in sorted((k("hist_counts") or {}).items()):
         hub.count(name, n)
@@ -247,7 +248,7 @@ async def run(ctx) -> None:
                 return (next((x for x in parts[2:6] if x[2:3] == ":" and x[:2] != "--"), None),
                         next((c for c in ("000A", "22C9") if c in parts[5:8]), None), A[1][d][4:6])
 
-            re_ctx = {src_code(d) for d in chg if merged_fragment(d)}  # fragments that the restore puts into another context ...
+            re_ctx = {src_code(d) for d in A[1] if merged_fragment(d)}  # fragments that a restore may put into another context ...
             if not new and (lost or chg) and all(merged_fragment(d) or (src_code(d) in re_ctx and src_code(d)[1]) for d in lost_keys + chg):
                 kind = "array_fragment_merge"  # ... where they displace the packet that was there
             if kind == "lost" and reclassed:
@@ -271,7 +272,6 @@ async def run(ctx) -> None:
         where = f"op {si} ({kind}) after {n_rx} packets"
         if kind == "rx":
             hub.rx_line(ser, o["f"])
-            delivered.append((clock.EPOCH + _dt.timedelta(microseconds=clock.peek_us()), o["f"]))
             n_rx += 1
             if o.get("gap", 0.004) > 0:
                 await asyncio.sleep(o["gap"])
